@@ -564,7 +564,7 @@ func (s *bState) triggerCompletion(b *Bar) {
 }
 
 func (s bState) completed() bool {
-	return s.triggerComplete && s.current == s.total
+	return s.triggerComplete && !s.aborted && s.current == s.total
 }
 
 func (s bState) newStatistics(tw int) decor.Statistics {
